@@ -153,7 +153,7 @@ def step (m : ML) (line : String) : ML × String :=
   | ["cmpl", f, t] =>
     match decBool f, decToks t with
     | some f, some t =>
-      (m, cmpOut (parseL false f {} t) (engineL CssVerif.Gen.C17Grammar.mediaList CssVerif.Gen.C17Grammar.mediaQueryPartof f t) showItems)
+      (m, cmpOut (parseL true f {} t) (engineL CssVerif.Gen.C17Grammar.mediaList CssVerif.Gen.C17Grammar.mediaQueryPartof f t) showItems)
     | _, _ => (m, "bad-op")
   | _ => (m, "bad-op")
 
